@@ -31,7 +31,7 @@ import pyimpl  # noqa: E402
 import abnf.parser as P  # noqa: E402
 from abnf.parser import ParseCache  # noqa: E402
 
-DRIVER = os.path.join(os.path.dirname(os.path.abspath(__file__)), "..", "ocaml", "driver")
+DRIVER = os.path.join(os.path.dirname(os.path.abspath(__file__)), "..", "ocaml", "rundriver")
 
 
 def driver(lines):
